@@ -44,7 +44,7 @@ HARNESSES = [
     TICKET("ticket_unlock", 0), TICKET("ticket_key_load", 1), TICKET("ticket_key_delete", 2), TICKET("ticket_create", 3),
 ]
 PROPERTY = dict(level='model_checking',
-    claim="Session-cache operations from an arbitrary table entry: resume succeeds only with the full 32-byte id of a valid, unexpired entry with matching version and EMS and installs exactly that entry's secret and suite; error invalidates; register/clear keep the table invariant; psDiffMsecs never underestimates the elapsed time.",
+    claim="Session-cache operations from an arbitrary table entry: resume succeeds only with the full 32-byte id of a valid, unexpired entry with matching version and EMS and installs exactly that entry's secret and suite; error invalidates; register/clear keep the table invariant; psDiffMsecs never underestimates the elapsed time. Session tickets: matrixUnlockSessionTicket accepts only a ticket of the exact length whose HMAC over name, IV and ciphertext verified under a loaded key with that name (or one the application callback supplied), of the same protocol version and within its lifetime, and installs the secret only then.",
     bounds='one table slot per query (slots 0, 31 and out-of-range quick; all 32 thorough); session tickets: key list of 0..2 keys, arbitrary 128-byte ticket, HMAC/AES as logging stubs (unlock accepts only when the MAC over the exact range under the named key matched; key load/delete keep the list well-formed; create seals with the first key)',
     outside='TLS 1.3 PSK binders, the resumption decision in parseClientHello, multi-step histories beyond the inductive step',
     explanation="Session-cache operations from an arbitrary table entry: resume succeeds only with the full 32-byte id of a valid, unexpired entry with matching version and EMS and installs exactly that entry's secret and suite; error invalidates; register/clear keep the table invariant; psDiffMsecs never underestimates the elapsed time.",
